@@ -284,6 +284,84 @@ func c03(c *core.Ctx) {
 		c.EndRule()
 	}
 
+	if c.Rule("R12", "headers that have arrived are handed out: Header() of a client stream does not give the caller's context a chance to win against a reply head that is already there — it waits for the head unconditionally, or, where it waits for the head and the context at once, the context's arm looks at the head's signal again (without blocking) before it reports the context's error. Go's select picks among ready arms at random: after a successful call whose context was then cancelled (defer cancel()), an unguarded race answers Canceled instead of the headers half of the time", 2) {
+		n := 0
+		for _, pk := range []string{"httpgrpc", "inprocgrpc"} {
+			for _, nt := range streamTypes(p, "ClientStream", "RecvMsg") {
+				if pkgSuffixOf(nt) != pk {
+					continue
+				}
+				fn := declaredMethod(p, nt, "Header")
+				if fn == nil {
+					continue
+				}
+				n++
+				key := core.FuncName(fn) + ":head-not-raced-against-the-context"
+				bad := token.NoPos
+				core.Instrs(fn, func(in ssa.Instruction) {
+					sel, ok := in.(*ssa.Select)
+					if !ok || !sel.Blocking || len(sel.States) < 2 {
+						return
+					}
+					// an arm that waits for ctx.Done(), another that waits for a signal of the stream (a field)
+					doneArm, sigArm := -1, -1
+					var sigChan ssa.Value
+					for i, st := range sel.States {
+						if st.Dir != types.RecvOnly {
+							continue
+						}
+						if cr, _, isC := core.CallResult(st.Chan); isC && core.InfoOf(&cr.Call).Name == "Done" {
+							doneArm = i
+							continue
+						}
+						if _, _, isF := core.FieldOf(st.Chan); isF && core.TypeStr(st.Chan.Type().Underlying().(*types.Chan).Elem()) == "struct{}" {
+							sigArm, sigChan = i, st.Chan
+						}
+					}
+					if doneArm < 0 || sigArm < 0 {
+						return
+					}
+					// on the context's arm: every return passes a non-blocking look at the signal
+					rechecks := func(x ssa.Instruction) bool {
+						s2, ok := x.(*ssa.Select)
+						if !ok || s2.Blocking {
+							return false
+						}
+						for _, st := range s2.States {
+							if st.Dir == types.RecvOnly && sameOrigins(st.Chan, sigChan) {
+								return true
+							}
+						}
+						return false
+					}
+					for _, b := range fn.Blocks {
+						iff, isIf := b.Instrs[len(b.Instrs)-1].(*ssa.If)
+						if !isIf {
+							continue
+						}
+						f := core.CondFact(iff.Cond, true)
+						ex, isEx := f.X.(*ssa.Extract)
+						k, isK := core.ConstInt(f.Y)
+						if !isEx || ex.Tuple != ssa.Value(sel) || ex.Index != 0 || f.Op != token.EQL || !isK || int(k) != doneArm {
+							continue
+						}
+						reach := core.Walk(core.Loc{B: b.Succs[0], Idx: 0}, rechecks, nil)
+						for _, r := range core.Returns(fn) {
+							if reach[r] && core.EdgeDominates(b, 0, r) {
+								bad = sel.Pos()
+							}
+						}
+					}
+				})
+				c.Check(bad == token.NoPos, key, fn.Pos(), "Header() waits for the reply head unconditionally (or re-checks the head's signal on the context's arm)", "Header() waits for the reply head and for the context in one select and reports the context's error without looking at the head's signal again: when both are ready — a completed call whose context was then cancelled — the caller gets Canceled instead of the headers, at random")
+			}
+		}
+		if n == 0 {
+			c.Missing("Header() of a client stream type")
+		}
+		c.EndRule()
+	}
+
 	// ---------------------------------------------------------------- R9
 	if c.Rule("R9", "a call that reports success has delivered the trailers: the in-process sender abandons its final frames (trailers included) once the context is done, so the receive functions may turn a closed channel into success only under a context re-check made after the receive (obligations shared with C02/R1)", 2) {
 		c02InprocRecheck(c)
